@@ -13,7 +13,8 @@ RULE = ("for each of 14 key shapes (v4/v6; RSA, DSA, EdDSA legacy, Ed25519, Ed44
         "secret and public verify_bindings, binary / armored export and re-import equal (secret and public), announced length, user id and subkey counts, flags and preference lists as "
         "requested on the right self-signature, back signature present on signing subkeys, primary and signing subkeys sign and verify (and reject other data), encryption subkeys "
         "encrypt/decrypt (SEIPD v1, and v2 for v6). Every MPI of fixed nominal size (signature halves of all self-signatures, bindings and test signatures; unprotected secret scalars) is "
-        "compared with the model's encoding of the padded value; the evidence counts how many had leading zero octets. non-trivial = keys for which every fact holds + MPI cases")
+        "compared with the model's encoding of the padded value; the evidence counts how many had leading zero octets. non-trivial = keys for which every fact holds + MPI cases. "
+        "Added: the cheap shapes (v4 EdDSA-legacy + Curve25519-legacy, v6 Ed25519 + X25519 + signing subkey, v4 P-256) generated, written and read back for 1800 seeds each (thorough 8000; a third of that for P-256): secret and public form read back equal, announced length = written length -- the 1-in-256 octet events (a value beginning or ending in a zero octet) are met with probability > 99.9%.")
 TRUSTED = [
     "model file: coq/theories/Key/Scalar.v (strip / pad / MPI codec); theorems coq/theories/Props/C07.v; the packet-level round trip of keys is C05's theorem",
     "the functional facts (bindings verify, keys usable, preferences as requested) are checked on the generated keys, seed by seed: testing over seeds, not proof; the theorem covers the value-dependent encoding hazard for every value",
